@@ -205,6 +205,34 @@ def check_history(shape_idx, paths, times, cells, acc, queries):
         cols = {k: v for k, v in flat.items() if k != 'time'}
         if not check_columns(cols, paths, rows, times, V, f'{name} path'):
             return
+    # raw data whose time keys were inserted in another order (merged from
+    # chunks, a shared emitter): whatever order the time vector comes in,
+    # every column is aligned with it cell by cell
+    if 1 < len(times) <= 3:
+        for perm in itertools.permutations(range(len(times))):
+            if list(perm) == sorted(perm):
+                continue
+            raw_p = {times[i]: raw[times[i]] for i in perm}
+            for name, series in (
+                    ('embedded', timeseries_from_data(raw_p)),
+                    ('path', path_timeseries_from_data(raw_p)),
+                    ('path-from-embedded',
+                     path_timeseries_from_embedded_timeseries(
+                         timeseries_from_data(raw_p)))):
+                tv = series.get('time')
+                if sorted(tv or []) != sorted(times):
+                    V('C18.timeseries', 'time-vector',
+                      f'raw keys inserted as {list(raw_p)}: {name} time '
+                      f'vector {tv}')
+                    return
+                rows_tv = [rows[list(times).index(t)] for t in tv]
+                cols = {k: v for k, v in series.items() if k != 'time'}
+                if name == 'embedded':
+                    cols = flatten(cols)
+                if not check_columns(
+                        cols, paths, rows_tv, tv, V,
+                        f'raw keys inserted as {list(raw_p)}, {name}'):
+                    return
     # queries
     for q in queries:
         acc.case(key=('query', shape_idx, tuple(times), cells, q),
